@@ -441,7 +441,7 @@ func (s *Session) runLocked(ctx context.Context, worker, kind string, p parsedSt
 	from := len(t.xacts)
 	x := t.newXact()
 	t.cid++
-	c := &execCtx{db: db, sess: s, txn: t, snap: snapshot{txn: t, cid: t.cid}, wx: x}
+	c := &execCtx{db: db, sess: s, txn: t, snap: t.snapAt(t.cid), wx: x}
 
 	defer func() {
 		if r := recover(); r != nil {
